@@ -1,7 +1,7 @@
 import TapkeeVerif.Proofs.LleCompose
 import Mathlib.Tactic.NormNum
 /-!
-# Property C08 (composition) — Kernel LLE end to end: the stage models composed into one `embed` model
+# Property C08 (composition) — Kernel LLE and Kernel LTSA end to end: the stage models composed into one `embed` model each
 
 `klleEmbedModel` is `KernelLocallyLinearEmbeddingImplementation::embed`
 (include/tapkee/methods/kernel_locally_linear_embedding.hpp) as ONE function, defined by composing the stage models that are
@@ -278,5 +278,187 @@ example : ∃ o, klleEmbedModel exκ 4 1 true 1 (1 / 10) (1 / 25) (bruteSearch (
   have hsimple : ∀ j : Fin 4, j.1 ≠ 0 → exLamK j ≠ 1 / 10 := by decide +kernel
   have h := hopt hsys hw hsimple
   exact ⟨_, ho, rfl, rfl, hw, by decide +kernel, hsys, hsimple, h.1, h.2.1⟩
+
+/-! ## Kernel LTSA
+
+`kltsaEmbedModel` is `KernelLocalTangentSpaceAlignmentImplementation::embed`
+(include/tapkee/methods/kernel_local_tangent_space_alignment.hpp), composed the same way:
+
+    find_neighbors_with(kernel_distance)            Connected.findNeighbors (search = C02 model)           C02 / C03
+    k = neighbors[0].size(), neighbors[i][j]        Connected.forwardOf (bounds) + LleCompose.nbOf         glue
+    gram(i,j) = gram(j,i) = κ(n_i, n_j), centerMatrix   LocallyLinear.localCentered                         C08
+    solver.compute(gram).eigenvectors().rightCols(d)    parameter `localEig` (contract Spectral.IsTopEig)  oracle
+    1/sqrt(k)                                       parameter `rskO` (contract `rsk² k = 1`)               oracle
+    G Gᵀ, triplets, setFromTriplets                 LocallyLinear.ltsaM                                    C08
+    eigendecomposition_via(SmallestEigenvalues), leftCols(d + 1).rightCols(d)   as for KLLE                C08 -/
+
+/-- everything KLTSA's `embed` computes on the way -/
+structure OutT (N d : Nat) (K : Type) where
+  found : Found
+  /-- `neighbors[0].size()` as read by `tangent_weight_matrix` -/
+  k : Nat
+  nb : Fin N → Fin k → Fin N
+  /-- `solver.eigenvectors().rightCols(d)` of the centred local Gram matrix, one per sample -/
+  U : Fin N → Mat k d K
+  /-- the value of `1 / sqrt(k)` -/
+  rsk : K
+  /-- the matrix handed to `eigendecomposition_via` -/
+  M : Mat N N K
+  V : Mat N N K
+  lam : Vec N K
+  Y : Mat N d K
+
+/-- **`KernelLocalTangentSpaceAlignmentImplementation::embed`, composed.**  `localEig k A` is the outcome of the local dense
+    eigensolver on the `k × k` centred Gram matrix `A` (its `d` last eigenvectors), `rskO k` the value of `1/sqrt(k)`. -/
+def kltsaEmbedModel (κ : Nat → Nat → K) (N k : Nat) (check : Bool) (d : Nat) (shift : K) (search : Nat → Graph)
+    (localEig : (k : Nat) → Mat k k K → Mat k d K) (rskO : Nat → K) (solver : Mat N N K → Mat N N K × Vec N K) :
+    Except Err (OutT N d K) :=
+  match findNeighbors search N check (findFuel N) k [] with
+  | .oob => .error .knnOob
+  | .fuelOut => .error .knnFuel
+  | .ok f =>
+    match forwardOf N (degree f.graph) f.graph with
+    | none => .error .nbOob
+    | some fwd =>
+      if d ≤ degree f.graph then
+        if hd : 1 + d ≤ N then
+          .ok { found := f, k := degree f.graph, nb := nbOf fwd N (degree f.graph),
+                U := fun i => localEig _ (localCentered (kMat κ N) (nbOf fwd N (degree f.graph) i)),
+                rsk := rskO (degree f.graph),
+                M := ltsaM (nbOf fwd N (degree f.graph)) (rskO (degree f.graph))
+                      (fun i => localEig _ (localCentered (kMat κ N) (nbOf fwd N (degree f.graph) i))) shift,
+                V := (solver (ltsaM (nbOf fwd N (degree f.graph)) (rskO (degree f.graph))
+                      (fun i => localEig _ (localCentered (kMat κ N) (nbOf fwd N (degree f.graph) i))) shift)).1,
+                lam := (solver (ltsaM (nbOf fwd N (degree f.graph)) (rskO (degree f.graph))
+                      (fun i => localEig _ (localCentered (kMat κ N) (nbOf fwd N (degree f.graph) i))) shift)).2,
+                Y := fun i c => (solver (ltsaM (nbOf fwd N (degree f.graph)) (rskO (degree f.graph))
+                      (fun i => localEig _ (localCentered (kMat κ N) (nbOf fwd N (degree f.graph) i))) shift)).1 i
+                        (shiftIdx 1 hd c) }
+        else .error .colsOob
+      else .error .localColsOob
+
+/-- **kltsa_end_to_end.**  As `klle_end_to_end`, with `1 ≤ d ≤ k` (the range `validate()` lets through):
+
+    the composed model returns (no error state of any stage), and
+    1.–3. as for KLLE (least passing `k'` of the doubling sequence; exact `k'`-NN lists w.r.t. the kernel-induced distance;
+       `tangent_weight_matrix` reads `k = k'` and `nb i a` = entry `a` of list `i`, distinct, none the sample itself);
+    4. `U i` is the local eigensolver's outcome on `centerMatrix` of the (by construction symmetric) Gram matrix of THOSE
+       neighbours, given entry by entry (`C08.centerMatrix_eq`), whose rows sum to zero (`C08.centerMatrix_rows_sum_zero`);
+       `d ≤ k'` (the `rightCols(d)` is in range); `G_i G_iᵀ = rsk² + U_i U_iᵀ` (`C08.ltsa_proj_eq`);
+    5. the matrix handed to the solver IS `Σ_i S_i (I − G_i G_iᵀ) S_iᵀ + nullspace_shift·I` (`C08.ltsa_M_eq`);
+    6. `Y` = columns `1 … d` of the solver's `V`; and whenever `(V, λ)` meets the solver contract `GenEigSystem` on that
+       matrix, `rsk²·k' = 1`, every column of every `U i` sums to zero (a consequence of the local eigensolver contract on
+       the centred Gram matrix for eigenvectors of non-zero eigenvalues — stated as a hypothesis, as in
+       `C08.kltsa_end_to_end`) and the trivial eigenvalue is simple: `YᵀY = 1`, every column of `Y` sums to zero,
+       `tr(YᵀMY) = Σ λ_{1+c}` and `Y` minimises `tr(ZᵀMZ)` over all orthonormal `Z ⟂ 1` (`C08.kltsa_end_to_end`). -/
+theorem kltsa_end_to_end (κ : Nat → Nat → K) (sqrtO : K → K) {N : Nat} (hN : 0 < N) {k : Nat} (hk : 1 ≤ k)
+    (hkN : k ≤ N - 1) {d : Nat} (hdk : d ≤ k) (hd : 1 + d ≤ N) (shift : K)
+    (search : Nat → Graph) (hlen : ∀ k, (search k).length = N)
+    (hexact : ∀ k, k ≤ N - 1 → ∀ u (hu : u < (search k).length),
+      IsExactKnn (kernelDist sqrtO κ) (List.range N) k u (search k)[u])
+    (localEig : (k : Nat) → Mat k k K → Mat k d K) (rskO : Nat → K) (solver : Mat N N K → Mat N N K × Vec N K) :
+    ∃ o, kltsaEmbedModel κ N k true d shift search localEig rskO solver = .ok o ∧
+      -- 1. k doubling
+      (∃ j, o.found.k = min (k * 2 ^ j) (N - 1) ∧ k ≤ o.found.k ∧
+        isConnected N o.found.graph = .ok true ∧ StronglyConnected o.found.graph N ∧
+        (∀ j', j' < j → ¬ StronglyConnected (search (min (k * 2 ^ j') (N - 1))) N) ∧
+        o.found.tried = (List.range (j + 1)).map fun j' => min (k * 2 ^ j') (N - 1)) ∧
+      -- 2. exact k'-NN lists w.r.t. the kernel-induced distance
+      (o.found.graph = search o.found.k ∧ o.found.graph.length = N ∧
+        ∀ u (hu : u < o.found.graph.length),
+          IsExactKnn (kernelDist sqrtO κ) (List.range N) o.found.k u o.found.graph[u]) ∧
+      -- 3. the neighbourhoods read by `tangent_weight_matrix`
+      (o.k = o.found.k ∧
+        (∀ (i : Fin N) (a : Fin o.k), ∃ l, o.found.graph[i.1]? = some l ∧ l[a.1]? = some (o.nb i a).1) ∧
+        (∀ i, Function.Injective (o.nb i)) ∧ ∀ (i : Fin N) (a : Fin o.k), o.nb i a ≠ i) ∧
+      -- 4. local centred Gram matrices, local bases, projectors
+      ((∀ i, o.U i = localEig o.k (localCentered (kMat κ N) (o.nb i))) ∧ o.rsk = rskO o.k ∧ d ≤ o.k ∧
+        (∀ (i : Fin N) (a b : Fin o.k), localGramSym (kMat κ N) (o.nb i) a b
+          = if a ≤ b then κ (o.nb i a).1 (o.nb i b).1 else κ (o.nb i b).1 (o.nb i a).1) ∧
+        (∀ (i : Fin N) (a b : Fin o.k), localCentered (kMat κ N) (o.nb i) a b
+          = localGramSym (kMat κ N) (o.nb i) a b
+            + (∑ a', ∑ b', localGramSym (kMat κ N) (o.nb i) a' b') / ((o.k * o.k : Nat) : K)
+            - (∑ a', localGramSym (kMat κ N) (o.nb i) a' b) / (o.k : K)
+            - (∑ a', localGramSym (kMat κ N) (o.nb i) a' a) / (o.k : K)) ∧
+        (∀ (i : Fin N) (a : Fin o.k), ∑ b, localCentered (kMat κ N) (o.nb i) a b = 0) ∧
+        (∀ (i : Fin N) (a b : Fin o.k),
+          ltsaProj o.rsk (o.U i) a b = o.rsk * o.rsk + ∑ c, o.U i a c * o.U i b c)) ∧
+      -- 5. the alignment matrix
+      (o.M = ltsaM o.nb o.rsk o.U shift ∧
+        Mat.toM o.M = (∑ i, S (o.nb i) * (1 - Mat.toM (ltsaProj o.rsk (o.U i))) * (S (o.nb i))ᵀ)
+          + shift • (1 : Matrix (Fin N) (Fin N) K)) ∧
+      -- 6. spectral part
+      ((o.V, o.lam) = solver o.M ∧ Mat.toM o.Y = cols (Mat.toM o.V) (shiftIdx 1 hd) ∧
+        (GenEigSystem (Mat.toM o.M) 1 (Mat.toM o.V) o.lam → o.rsk * o.rsk * (o.k : K) = 1 →
+          (∀ i c, ∑ a, o.U i a c = 0) → (∀ j : Fin N, j.1 ≠ 0 → o.lam j ≠ shift) →
+          (Mat.toM o.Y)ᵀ * Mat.toM o.Y = 1 ∧ (∀ c, ∑ i, Mat.toM o.Y i c = 0) ∧
+          Matrix.trace ((Mat.toM o.Y)ᵀ * Mat.toM o.M * Mat.toM o.Y) = ∑ c, o.lam (shiftIdx 1 hd c) ∧
+          ∀ Z : Matrix (Fin N) (Fin d) K, Zᵀ * Z = 1 → (∀ c, ∑ i, Z i c = 0) →
+            Matrix.trace ((Mat.toM o.Y)ᵀ * Mat.toM o.M * Mat.toM o.Y) ≤ Matrix.trace (Zᵀ * Mat.toM o.M * Z))) := by
+  obtain ⟨f, hf⟩ := findNeighbors_terminates (kernelDist sqrtO κ) search hN hk hlen hexact
+  obtain ⟨j, hkj, hgraph, hsc, hmin, htried⟩ := k_raised_only_if_needed search hN _ k f hf
+  have hk'le : f.k ≤ N - 1 := by rw [hkj]; exact Nat.min_le_right _ _
+  have hkle : k ≤ f.k := by
+    rw [hkj]; exact Nat.le_min.2 ⟨Nat.le_mul_of_pos_right k (Nat.pow_pos (by omega)), hkN⟩
+  have hex' : ∀ u (hu : u < f.graph.length), IsExactKnn (kernelDist sqrtO κ) (List.range N) f.k u f.graph[u] := by
+    rw [hgraph]; exact hexact _ hk'le
+  have hglen : f.graph.length = N := by rw [hgraph]; exact hlen _
+  have huni : Uniform f.graph N f.k := uniform_of_exact hglen hex'
+  have hdeg : degree f.graph = f.k := huni.degree hN
+  have huni' : Uniform f.graph N (degree f.graph) := by rw [hdeg]; exact huni
+  have hex'' : ∀ u (hu : u < f.graph.length),
+      IsExactKnn (kernelDist sqrtO κ) (List.range N) (degree f.graph) u f.graph[u] := by rw [hdeg]; exact hex'
+  have hconn : isConnected N f.graph = .ok true := by
+    obtain ⟨b, hb, hiff⟩ := isConnected_iff hN (huni.not_oob hN)
+    rw [hb, hiff.2 hsc]
+  have hfwd := forwardOf_uniform huni hN
+  have hdk' : d ≤ degree f.graph := by rw [hdeg]; omega
+  have hk0 : ((degree f.graph : Nat) : K) ≠ 0 := Nat.cast_ne_zero.2 (by rw [hdeg]; omega)
+  refine ⟨{ found := f, k := degree f.graph, nb := nbOf f.graph N (degree f.graph),
+            U := fun i => localEig _ (localCentered (kMat κ N) (nbOf f.graph N (degree f.graph) i)),
+            rsk := rskO (degree f.graph),
+            M := ltsaM (nbOf f.graph N (degree f.graph)) (rskO (degree f.graph))
+                  (fun i => localEig _ (localCentered (kMat κ N) (nbOf f.graph N (degree f.graph) i))) shift,
+            V := (solver (ltsaM (nbOf f.graph N (degree f.graph)) (rskO (degree f.graph))
+                  (fun i => localEig _ (localCentered (kMat κ N) (nbOf f.graph N (degree f.graph) i))) shift)).1,
+            lam := (solver (ltsaM (nbOf f.graph N (degree f.graph)) (rskO (degree f.graph))
+                  (fun i => localEig _ (localCentered (kMat κ N) (nbOf f.graph N (degree f.graph) i))) shift)).2,
+            Y := fun i c => (solver (ltsaM (nbOf f.graph N (degree f.graph)) (rskO (degree f.graph))
+                  (fun i => localEig _ (localCentered (kMat κ N) (nbOf f.graph N (degree f.graph) i))) shift)).1 i
+                    (shiftIdx 1 hd c) }, ?_, ?_, ?_, ?_, ?_, ?_, ?_⟩
+  · unfold kltsaEmbedModel
+    simp only [hf, hfwd, if_pos hdk', dif_pos hd]
+  · exact ⟨j, hkj, hkle, hconn, hsc, hmin, htried⟩
+  · exact ⟨hgraph, hglen, hex'⟩
+  · exact ⟨hdeg, fun i a => nbOf_spec huni' i a, fun i => (nbOf_exact huni' hex'' i).1,
+      fun i a => (nbOf_exact huni' hex'' i).2 a⟩
+  · refine ⟨fun _ => rfl, rfl, hdk', fun i a b => rfl, fun i a b => C08.centerMatrix_eq _ a b,
+      fun i a => C08.centerMatrix_rows_sum_zero _ (localGramSym_symm _ _) hk0 a,
+      fun i a b => C08.ltsa_proj_eq _ _ a b⟩
+  · exact ⟨rfl, C08.ltsa_M_eq _ _ _ shift⟩
+  · refine ⟨rfl, by ext i c; rfl, ?_⟩
+    intro hsys h1 hU hsimple
+    exact C08.kltsa_end_to_end _ _ _ shift h1 hU _ _ hsys hd hsimple
+
+/-- non-vacuity of the composition (conjuncts 1–5 have no hypothesis beyond the search's exactness): on the KLLE instance
+    above (`N = 4`, requested `k = 1`, `d = 1`) the composed KLTSA model runs, `k` is doubled once, and
+    `tangent_weight_matrix` reads `k' = 2 ≥ d`.  The hypotheses of conjunct 6 are those of `C08.kltsa_end_to_end`
+    (`rsk²·k = 1`, zero column sums: instance in `Props/C08.lean` at `k = 4`); together with a rational orthonormal
+    eigensystem with a constant first column they need `√k'` and `√N` rational at once (`k' = 4`, `N ≥ 9`); no such instance
+    with an exact search was constructed — the joint satisfiability of the hypotheses of conjunct 6 is NOT machine-checked. -/
+example : ∃ o, kltsaEmbedModel exκ 4 1 true 1 (1 / 10) (bruteSearch (kernelDist exSqrt exκ) 4)
+      (fun _ _ _ _ => (0 : ℚ)) (fun _ => 1 / 2) exSolver = .ok o ∧
+    o.found.k = 2 ∧ o.found.tried = [1, 2] ∧ o.k = 2 ∧ (∀ i c, ∑ a, o.U i a c = 0) := by
+  obtain ⟨o, ho, _, _, ⟨h3, _⟩, _, _, _⟩ :=
+    kltsa_end_to_end exκ exSqrt (N := 4) (by decide) (k := 1) (by decide) (by decide) (d := 1) (by decide) (by decide)
+      (1 / 10) (bruteSearch (kernelDist exSqrt exκ) 4) (bruteSearch_length _ 4)
+      (fun k hk => bruteSearch_exact (by decide) ex_self k hk) (fun _ _ _ _ => (0 : ℚ)) (fun _ => 1 / 2) exSolver
+  have ho' := ho
+  unfold kltsaEmbedModel at ho'
+  simp only [ex_find, ex_fwd] at ho'
+  rw [if_pos (by decide), dif_pos (by decide)] at ho'
+  injection ho' with ho'
+  subst ho'
+  exact ⟨_, ho, rfl, rfl, by decide, fun i c => by simp⟩
 
 end TapkeeVerif.LleCompose
